@@ -472,17 +472,26 @@ func init() {
 		MinInst: 10,
 		Run: func(c *RuleCtx) {
 			region := c.P.TransitiveCallees(c.Fn("Association.handleInbound"))
-			reviewedDiv := map[string]string{
-				"receivePayloadQueue.hasChunk":                "len(tsnBitmask) >= 31 words: getMaxTSNOffset >= minTSNOffset (see C16.R3)",
-				"receivePayloadQueue.push":                    "same ring",
-				"receivePayloadQueue.pop":                     "same ring",
-				"receivePayloadQueue.clearTSNRange":           "same ring",
-				"receivePayloadQueue.getGapAckBlocks":         "same ring",
-				"queue.PushBack":                              "len(buf) >= minCap (newQueue / growIfFull double)",
-				"queue.PopFront":                              "len(buf) >= minCap",
-				"queue.At":                                    "len(buf) >= minCap",
-				"queue.Back":                                  "len(buf) >= minCap",
-				"weightedFairQueueingPendingQueuePolicy.Push": "float division, weight defaulted to 1 when 0",
+			// reviewed divisors, keyed by what is divided by (not by where): lengths of the two ring buffers
+			reviewedLen := map[*types.Var]string{
+				c.field("receivePayloadQueue", "tsnBitmask"): "ring length >= 1 word: the constructor's loop starts at nWords = 1 and only doubles (C05.R3 / C16.R3)",
+				c.field("queue", "buf"):                      "len(buf) >= minCap: newQueue starts at minCap and growIfFull only doubles",
+			}
+			reviewedDivisor := func(v ssa.Value) (string, bool) {
+				call, ok := unconv(v).(*ssa.Call)
+				if !ok {
+					return "", false
+				}
+				b, ok := call.Call.Value.(*ssa.Builtin)
+				if !ok || b.Name() != "len" {
+					return "", false
+				}
+				for f, why := range reviewedLen {
+					if IsLoadOf(f)(call.Call.Args[0]) {
+						return why, true
+					}
+				}
+				return "", false
 			}
 			assertReviewed := map[string]string{
 				"Association.SRTT": "srtt only ever stores float64 (checked below)",
@@ -517,11 +526,9 @@ func init() {
 							return
 						}
 						if bt, ok := x.Y.Type().Underlying().(*types.Basic); ok && bt.Info()&types.IsFloat != 0 {
-							if _, ok := reviewedDiv[name]; !ok {
-								return // float division does not panic
-							}
+							return // float division does not panic
 						}
-						if why, ok := reviewedDiv[name]; ok {
+						if why, ok := reviewedDivisor(x.Y); ok {
 							c.Ok(ks.key("div@"+name), c.Pos(in), "reviewed divisor: "+why)
 						} else {
 							c.Fail(ks.key("div@"+name), c.Pos(in), "division/modulo by a non-constant without a reviewed non-zero argument")
